@@ -110,6 +110,9 @@ func standalone(t *syntree.Tree) bool {
 	if t.K == "CallExpr" && syntree.IsCmdKind(t.A) {
 		return false
 	}
+	if (t.K == "FuncType" && t.A == "decl") || t.K == "MatrixLit" {
+		return false // a method signature / a matrix literal (only accepted as call argument) cannot stand alone
+	}
 	return strings.HasSuffix(t.K, "Expr") || strings.HasSuffix(t.K, "Lit") || strings.HasSuffix(t.K, "Type") ||
 		t.K == "Ident" || t.K == "LambdaExpr2"
 }
@@ -135,7 +138,7 @@ func slots(cur *syntree.Tree) []slot {
 			case c.K == "Nil":
 			case c.K == "List":
 				rec(real, f, c)
-			case standalone(c):
+			case standalone(c) || c.K == "MatrixLit":
 				out = append(out, slot{real, f, holder, i})
 			default:
 				rec(c, "", c)
@@ -154,7 +157,7 @@ descend:
 	for {
 		for _, s := range slots(cur) {
 			ch := s.holder.C[s.idx]
-			if len(ch.C) == 0 {
+			if len(ch.C) == 0 || !standalone(ch) {
 				continue
 			}
 			if r := roundTrip(ch, "expr"); !r.ok && r.stage != "build" {
@@ -209,7 +212,17 @@ descend:
 		if strings.HasPrefix(orig.K, "LambdaExpr") && !strings.HasPrefix(s.parent.K, "LambdaExpr") {
 			return class + ":operand-LambdaExpr", detail
 		}
+		// `x?:d` is a unary-level expression; as operand of a postfix operator it needs parentheses, whatever the operator
+		if orig.K == "ErrWrapExpr" && len(orig.C) == 2 && syntree.FieldName(s.parent.K, 0) == s.field && s.parent.K != "BinaryExpr" {
+			return class + ":operand-ErrWrapDefault", detail
+		}
 		return fmt.Sprintf("%s:%s.%s", class, s.parent.K, s.field), detail
+	}
+	// no single slot repairs it: several lambda operands at once?
+	for _, s := range slots(cur) {
+		if strings.HasPrefix(s.holder.C[s.idx].K, "LambdaExpr") && !strings.HasPrefix(s.parent.K, "LambdaExpr") {
+			return "noparen:operand-LambdaExpr", detail
+		}
 	}
 	return "misprint:" + cur.K, detail
 }
@@ -233,7 +246,7 @@ func scanSpellings(text string) []string {
 		if tok == token.EOF {
 			break
 		}
-		if tok == token.SEMICOLON && lit == "\n" {
+		if tok == token.SEMICOLON {
 			continue
 		}
 		if tok == token.UNIT && len(out) > 0 {
@@ -242,6 +255,12 @@ func scanSpellings(text string) []string {
 		}
 		if lit == "" || tok.IsOperator() {
 			lit = tok.String()
+		}
+		switch tok { // the scanner reports these literals without their prefix
+		case token.CSTRING:
+			lit = "c" + lit
+		case token.PYSTRING:
+			lit = "py" + lit
 		}
 		out = append(out, lit)
 	}
@@ -272,7 +291,7 @@ func runC22() {
 			// drift: the real printer's tokens differ from the model's minimal-paren printing
 			var want []string
 			for _, t := range c.Toks {
-				if t.G != "n" {
+				if t.G != "n" && t.S != ";" { // row separators of a matrix literal are line breaks in the printer's text
 					want = append(want, t.S)
 				}
 			}
